@@ -20,6 +20,7 @@ import copy
 import dataclasses as dc
 import functools
 import itertools as itt
+import threading
 from typing import TypeVar
 import weakref
 
@@ -49,26 +50,31 @@ class LruCache(Mapping[_KeyT, _ValueT]):
     self.hits = 0
     self.misses = 0
     self.data = collections.OrderedDict()
+    # The cache is shared by the request threads of a server: the hashing of a
+    # key runs Python code, so a lookup or an insertion is not atomic.
+    self._lock = threading.RLock()
 
   def __getitem__(self, key):
-    if key not in self.data:
-      self.misses += 1
-      raise KeyError()
-    self.hits += 1
-    value = self.data[key]
-    self.data.move_to_end(key)
-    return value
+    with self._lock:
+      if key not in self.data:
+        self.misses += 1
+        raise KeyError()
+      self.hits += 1
+      value = self.data[key]
+      self.data.move_to_end(key)
+      return value
 
   def __setitem__(self, key, value):
-    key_is_new = key not in self.data
-    self.data[key] = value
-    if key_is_new:
-      self.currsize += 1
-      self.data.move_to_end(key)
-    if self.currsize > self.maxsize:
-      oldest = next(iter(self.data))
-      del self.data[oldest]
-      self.currsize -= 1
+    with self._lock:
+      key_is_new = key not in self.data
+      self.data[key] = value
+      if key_is_new:
+        self.currsize += 1
+        self.data.move_to_end(key)
+      if self.currsize > self.maxsize:
+        oldest = next(iter(self.data))
+        del self.data[oldest]
+        self.currsize -= 1
 
   def cache_insert(self, key, value):
     self.__setitem__(key, value)
@@ -83,10 +89,11 @@ class LruCache(Mapping[_KeyT, _ValueT]):
     return self.currsize
 
   def cache_clear(self):
-    self.data.clear()
-    self.currsize = 0
-    self.hits = 0
-    self.misses = 0
+    with self._lock:
+      self.data.clear()
+      self.currsize = 0
+      self.hits = 0
+      self.misses = 0
 
   def cache_info(self) -> _CacheInfo:
     return _CacheInfo(
